@@ -7,16 +7,14 @@ Open Scope Z_scope.
 
 Lemma row_threaded_fold c row : forall P, WFc P -> Forall (run_ok' c) row ->
   fold_left (fun P (r : crun) => let '(a, cs, text) := r in
-               paint_text P cs (attr_vis c a) (if cs =? 2 then text else trans_text (g_utf8 c) text)) row P
+               paint_text P cs (attr_vis c a) (out_text c cs text)) row P
   = P ++ row_cells c row.
 Proof.
   induction row as [|[[a cs] text] row IH]; intros P HP Hok.
   - cbn. now rewrite app_nil_r.
   - apply Forall_cons_iff in Hok as [(Ht & Hb & Hcs) Hrest]. cbn [fold_left].
-    assert (Et : (if cs =? 2 then text else trans_text (g_utf8 c) text) = text).
-    { destruct (cs =? 2); [reflexivity|]. apply (trans_text_id _ _ Ht). }
-    rewrite Et. pose proof (Forall_chr_ok_w12 _ _ Ht) as Hw.
-    rewrite paint_text_base by assumption.
+    destruct (out_text_ok c cs text Ht) as (Hw & _ & Ob & _).
+    rewrite paint_text_base; [|exact Hw|apply Ob; exact Hb].
     rewrite IH; [|apply WFc_app; [exact HP|apply WFc_text_cells; exact Hw]|exact Hrest].
     cbn [row_cells flat_map run_cells]. fold (row_cells c row). unfold text_cells. now rewrite app_assoc.
 Qed.
